@@ -176,10 +176,11 @@ def isWildcardSteps (ix : List Step) : Bool := ix.contains .wild
 def showIndex (n : Nat) : Str :=
   if n ≥ HARDENED then showNat (n - HARDENED) ++ ['h'] else showNat n
 
-/-- elements of a set; a `None` element makes `i < HARDENED_INDEX` raise TypeError -/
+/-- elements of a set; a `None` element (a `*` written inside a set) is printed `*` — after the fix
+    `descriptor-print-wildcard-in-set`; before it `i < HARDENED_INDEX` raised TypeError on `None` -/
 def showSetElems : List (Option Nat) → Option (List Str)
   | [] => some []
-  | none :: _ => none
+  | none :: r => (showSetElems r).map (['*'] :: ·)
   | some n :: r => (showSetElems r).map (showIndex n :: ·)
 
 /-- `AllowedDerivation.__str__` -/
